@@ -11,6 +11,7 @@ written at that node's next wake, (c) an AIOMySensorsError was raised.
 from __future__ import annotations
 
 import random
+from collections import Counter
 
 from vsim import gen as G
 from vsim.core import RunResult, Tapes
@@ -330,11 +331,15 @@ def _batch(scn, proto, res):
         restore_nodes(w.gateway, {"2": {"type": 17, "version": proto, "sleeping": True,
                                         "children": {"0": {"type": 3, "desc": "c"}, "1": {"type": 3, "desc": "c"}}}})
         lines = {}
+        held_count = Counter()
         for f in scn["batch"]:
             obs = w.send_step(tuple(f), True)
             if obs.kind == "ok" and not obs.writes:
-                # held: the latest SET per (node, child, type) is owed; any other held command is owed as it is
+                # held: the latest SET per (node, child, type) is owed once; any other held command is owed as it is
+                # (once per send, or once altogether if the library coalesces identical commands)
                 lines[(f[0], f[1], f[2], f[4])] = encode(tuple(f))
+                if f[2] != 1:
+                    held_count[encode(tuple(f))] += 1
         written = []
         failed_any = False
         for noise in scn.get("noise", []):
@@ -354,7 +359,7 @@ def _batch(scn, proto, res):
         res.probes["batch_with_write_fault" if failed_any else "batch_fault_free"] += 1
         for key, line in lines.items():
             n = written.count(line)
-            if n != 1:
+            if not (n == 1 or (key[2] != 1 and 1 <= n <= held_count[line])):
                 res.violate(PROP, "never-silently-discarded" if n == 0 else "exactly-one-outcome",
                             f"held-then-{'lost' if n == 0 else 'repeated'}:after-write-fault" if failed_any else
                             f"held-then-{'lost' if n == 0 else 'repeated'}",
